@@ -464,7 +464,7 @@ def jobs(unit, tier, only=None):
         for n in ((1, 3) if tier == 'quick' else (1, 2, 3, 8)):
             out.append(Job('c04_assign_%s_N%d' % (a['kind'], n), a['function'] + ' (sliced function, T := int)',
                            'every write to the fixed-size destination is inside it; index invariant mIndex <= N preserved (induction over the token loop, harness)',
-                           make_build_assign(unit, 'h_assign_' + a['kind'], n), backend='sat', unwind=6, timeout=300, mode='harness',
+                           make_build_assign(unit, 'h_assign_' + a['kind'], n), backend='sat', unwind=max(6, n + 3), timeout=300, mode='harness',
                            instance={'N': n, 'tokens': 'unbounded (induction step from an arbitrary token position)'}, extra_flags=['--drop-unused-functions']))
     if only:
         out = [j for j in out if only in j.name]
